@@ -1439,10 +1439,15 @@ func (s *BgpServer) processRTCMembership(peer *peer, path *table.Path) {
 	fs := peerNonRTCFamilies(peer)
 	s.rtcVPNCandidates(peer, path.IsWithdraw, rt, fs, func(paths []*table.Path, filtered []*table.Path) {
 		if path.IsWithdraw {
-			// Skips filtering: paths are already scoped to this RT and withdrawals
-			// do not need path attributes.
-			peer.updateRoutes(filtered...)
-			sendfsmOutgoingMsg(peer, filtered)
+			// Re-evaluate the candidates against the memberships that remain:
+			// a route stays advertised while another membership (or the
+			// default one) still matches it, and only the routes that were
+			// advertised are withdrawn.
+			withdrawals := slices.DeleteFunc(withdrawalsOfFiltered(peer, filtered), peer.interestedIn)
+			if len(withdrawals) > 0 {
+				peer.updateRoutes(withdrawals...)
+				sendfsmOutgoingMsg(peer, withdrawals)
+			}
 			return
 		}
 		if peer.getRtcEORWait() {
